@@ -276,6 +276,9 @@ def execute(case):
     detail = dict(src=src if len(src) < 3000 else src[:3000] + "...", **r.brief())
     if r.signal:
         return engine.bad("asl killed by signal %d" % r.signal, key, classes, **detail)
+    if case.get("oversize") and r.status == 2 and r.p is None and "error" in r.err:
+        # a single statement beyond the assembler's per-statement limit may be refused - but not swallowed
+        return engine.ok(key, classes + ["oversize-statement-refused"])
     if r.status != 0 or r.p is None:
         return engine.bad("valid data program rejected: status %s" % r.status, key, classes, **detail)
     try:
@@ -351,6 +354,17 @@ def fixed_cases(tier):
             out.append(dict(items=[["cpu", tn], ["seg", "code"], ["org", 16], ["emit", units - 40, 3, 1, "list"],
                                    ["emit", 37, 9, 3, "list"], ["emit", 5, 1, 1, "list"], ["res", 2],
                                    ["emit", 2, 77, 1, "list"]]))
+    # one statement at and just beyond 64 KiB: laid down completely or refused with an error
+    for tn, gran in (("68000", 1), ("z80", 1), ("8051", 1), ("6502", 1)):
+        for n in (65534, 65535, 65536, 65537, 65540, 131072):
+            its = [["cpu", tn], ["seg", "code"], ["org", 256 if tn == "68000" else 0]]
+            if tn == "68000":
+                its += [["emit", 4, 72, 1, "list"], ["emit", n, 5, 1, "dup"], ["emit", 4, 84, 1, "list"]]
+            elif n <= 65536:
+                its += [["emit", n, 5, 1, "dup"]]
+            else:
+                continue
+            out.append(dict(items=its, oversize=n > 65535))
     out.append(dict(items=[["cpu", "16c84"], ["seg", "code"], ["org", 0]] +
                           [["emit", 64, i * 11, 3, "list"] for i in range(5)] + [["res", 3], ["emit", 2, 1, 1, "list"]]))
     out.append(dict(items=[["cpu", "320c30"], ["seg", "code"], ["org", 64]] +
